@@ -109,12 +109,12 @@ def run(ck):
     # ---- 2. schedules (M->C)
     # scaled worlds: counts in units of 1000/budget real keys, so that real batches = model batches
     if thorough:
-        scaled = [dict(nc=2, nA=[11, 1], nH=[1, 1], budget=10, gone0="{{}}", n=26, cat="Q"),
-                  dict(nc=2, nA=[3, 1], nH=[1, 2], budget=2, gone0="{{}, {2}}", n=22, cat="S"),
-                  dict(nc=2, nA=[1, 2], nH=[3, 0], budget=2, gone0="{{}}", n=18, cat="L"),
-                  dict(nc=3, nA=[5, 2, 6], nH=[1, 3, 1], budget=4, gone0="{{}, {1}}", n=22, cat="Q")]
+        scaled = [dict(nc=2, nA=[11, 1], nH=[1, 1], budget=10, gone0="{{}}", n=20, cat="Q"),
+                  dict(nc=2, nA=[3, 1], nH=[1, 2], budget=2, gone0="{{}, {2}}", n=16, cat="S"),
+                  dict(nc=2, nA=[1, 2], nH=[3, 0], budget=2, gone0="{{}}", n=12, cat="L"),
+                  dict(nc=3, nA=[5, 2, 6], nH=[1, 3, 1], budget=4, gone0="{{}, {1}}", n=14, cat="Q")]
     else:
-        scaled = [dict(nc=2, nA=[11, 1], nH=[1, 1], budget=10, gone0="{{}}", n=9, cat="Q")]
+        scaled = [dict(nc=2, nA=[11, 1], nH=[1, 1], budget=10, gone0="{{}}", n=4, cat="Q")]
     hist_len = 16
     jobs = []
     shapes = set()
@@ -131,13 +131,27 @@ def run(ck):
     leakpool = mu.all_behaviours(ck, "MetaMigrationGen", "MetaMigrationGen_asis.cfg", {"MetaMigrationGenW.tla": mu.genw_module(scaled)})
     leakpool = list({json.dumps(b, sort_keys=True): b for b in leakpool}.values())
     leakpool.sort(key=lambda b: (len(b["steps"]), -b["w"]["ver0"], json.dumps(b, sort_keys=True)))
+    # systematic part: EVERY behaviour with at most one interrupt and no container removal (exhaustive BFS of the
+    # generator): the uninterrupted upgrade (a > 1000-association container crosses batch boundaries with the
+    # in-memory cursor only), a cancellation after every transaction, a crash at every gate (incl. right after
+    # the version writes of Mig9 / of anything that writes a version early), an already cancelled context
+    single = mu.all_behaviours(ck, "MetaMigrationGen", "MetaMigrationGen_single.cfg", {"MetaMigrationGenW.tla": mu.genw_module(scaled)})
+    single = [b for b in single if not b["w"]["gone0"] and (b["w"]["ver0"] == 9 or b["w"]["drift"][0])
+              and not b["steps"][-1].get("cc")]
+    single = list({json.dumps(b, sort_keys=True): b for b in single}.values())
+    single.sort(key=lambda b: (len(b["steps"]), json.dumps(b, sort_keys=True)))
+    if not any(all(e["ev"] not in ("Cancel", "Crash", "Fail") and not e.get("cc") for e in b["steps"]) for b in single):
+        raise vkit.Infra("no uninterrupted schedule generated")
     leakjobs = []
+    n_single = 0
     for sw in scaled:
         key = json.dumps([sw["nA"], sw["nH"], sw["budget"]])
         unit = 1000 // sw["budget"]
         assert unit * sw["budget"] == 1000
         h = hist_for(sw["cat"], 1)[0]
-        for b in mu.select([x for x in pool if mu.world_key(x) == key], sw["n"]):
+        sys_b = [x for x in single if mu.world_key(x) == key]
+        n_single += len(sys_b)
+        for b in sys_b + mu.select([x for x in pool if mu.world_key(x) == key], sw["n"]):
             jobs.append(mu.mk_job(len(jobs) + 1, sw["cat"], h, b, unit))
             shapes.add(json.dumps(b["steps"]))
         for b in [x for x in leakpool if mu.world_key(x) == key][:2 if thorough else 1]:
@@ -173,6 +187,7 @@ def run(ck):
     ck.setcov("trace_events", len(events))
     ck.setcov("scaled_jobs_with_1000_key_batches", n_scaled + len(leakjobs))
     ck.setcov("distinct_schedules", len(shapes))
+    ck.setcov("systematic_single_interrupt_schedules_on_1000_key_worlds", n_single)
     ck.setcov("upgrades_completed", sum(1 for e in events if e["ev"] == "Finish"))
     ck.setcov("interrupts_executed", {x: sum(1 for e in events if e["ev"] == x) for x in ("Cancel", "Crash", "Gone", "Fail")})
     ck.setcov("histories_with_counter_drift_before_upgrade", sum(1 for e in events if e["ev"] == "Init" and e.get("preDrift")))
